@@ -19,6 +19,9 @@ REPO = os.environ.get('VERIF_REPO', '/repo')
 
 # unit -> function -> list of replays
 REGISTRY = {
+    # pseudo-unit: table collision paths that no verifier reaches (C05 thorough tier only)
+    'tablepaths': {'*': [dict(kind='egg', file='replays/findings/f2_parallel_insert_drops_merge.egg', args=('-j', '4'), env={'EGGLOG_PARALLEL_TABLE_OP_CUTOFF': '0'}),
+                         dict(kind='egg', file='replays/findings/f2_parallel_insert_drops_merge.egg', args=('-j', '1'))]},
     'cont': {'*': [dict(kind='egg', file='replays/cont/nested_containers.egg'), dict(kind='egg', file='replays/cont/nested_containers.egg', args=('--naive',)),
                    dict(kind='egg', file='replays/cont/incremental_container_rebuild.egg'),
                    dict(kind='egg', file='replays/cont/map_keys_of_container_sort.egg'),
